@@ -535,7 +535,7 @@ class P:
 
 
 VIEW_CTORS = {"const_subarray", "subarray", "const_reference", "reference", "basic_const_array"}
-LAYOUT_CTORS = {"layout_t", "sub_type"}
+LAYOUT_CTORS = {"layout_t", "sub_type", "layout_type"}
 CTOR_NAMES = VIEW_CTORS | LAYOUT_CTORS | {"index_extension", "extension_t", "iterator", "range", "array_iterator"}
 
 
@@ -817,9 +817,9 @@ class Interp:
         if name in LAYOUT_CONST:
             return ("lay", ("var", f"({LAYOUT_CONST[name]} {paren(L_render(L))} " + " ".join(paren(self.as_int(x)) for x in a) + ")"))
         if name in LAYOUT_MUTATORS and not a:
-            if lv is None:
-                raise TranslateError(f"{self.fname}: mutating {name}() on a temporary")
             new = ("var", f"({LAYOUT_MUTATORS[name]} {paren(L_render(L))})")
+            if lv is None:
+                return ("lay", new)   # a temporary, mutated and returned by reference
             self.write_lv(lv, ("lay", new))
             return ("lref", lv)
         if name == "reindex":
